@@ -23,12 +23,15 @@ class CaseResult:
 
 def run_cases(module: str, cases: list[Any], *, shards: int = 16, env_name: str = "CASE_FILE",
               extra_env: dict[str, str] | None = None, cfg_text: str | None = None,
-              timeout: float = 3600, min_per_shard: int = 50, xmx: str | None = "3g", count_ends=None) -> CaseResult:
+              timeout: float = 3600, min_per_shard: int = 50, xmx: str | None = "3g", count_ends=None,
+              max_per_shard: int | None = None) -> CaseResult:
     """count_ends: for judges without a single end state (MachineCases): function case -> number of "end" records expected."""
     res = CaseResult()
     if not cases:
         return res
     k = max(1, min(shards, len(cases) // min_per_shard or 1))
+    if max_per_shard and len(cases) > k * max_per_shard:
+        k = -(-len(cases) // max_per_shard)      # more shards than JVMs at a time: a shard's JSON must stay loadable
     bounds = [(len(cases) * j // k, len(cases) * (j + 1) // k) for j in range(k)]
     with tempfile.TemporaryDirectory(prefix="verif-cases-") as tmp:
         files = []
@@ -43,7 +46,7 @@ def run_cases(module: str, cases: list[Any], *, shards: int = 16, env_name: str 
                 env.update(extra_env)
             return tlc.run(module, workers=1, env=env, cfg_text=cfg_text, timeout=timeout, xmx=xmx)
 
-        with ThreadPoolExecutor(max_workers=k) as ex:
+        with ThreadPoolExecutor(max_workers=min(k, shards)) as ex:
             outs = list(ex.map(one, range(k)))
     for j, r in enumerate(outs):
         a, b = bounds[j]
